@@ -142,3 +142,25 @@ Fixpoint canonical_native (g : gov) : bool :=
   | GMapAny kvs => forallb (fun kv => canonical_native (snd kv)) kvs
   | _ => false
   end.
+
+(* ---------- the case table of parseVal's type switch, as the model assumes it (compared with the table extracted from the
+   source on every run: Generated/GenParseVal.v) ---------- *)
+Definition parseval_cases_modelled : list (bytes * bytes) :=
+  [ (B"Object", B"return v");
+    (B"map[string]any", B"return NewObjectFrom(v)"); (B"map[string]Object", B"return NewObjectFrom(v)"); (B"map[string]List", B"return NewObjectFrom(v)");
+    (B"map[string]string", B"return NewObjectFrom(v)"); (B"map[string]bool", B"return NewObjectFrom(v)"); (B"map[string]int", B"return NewObjectFrom(v)");
+    (B"map[string]float64", B"return NewObjectFrom(v)");
+    (B"List", B"return v");
+    (B"[]any", B"return NewListFrom(v)"); (B"[]Object", B"return NewListFrom(v)"); (B"[]List", B"return NewListFrom(v)"); (B"[]string", B"return NewListFrom(v)");
+    (B"[]bool", B"return NewListFrom(v)"); (B"[]int", B"return NewListFrom(v)"); (B"[]float64", B"return NewListFrom(v)");
+    (B"string", B"return newString(v)"); (B"bool", B"return newBool(v)"); (B"int", B"return newInt(v)");
+    (B"int64", B"return newInt(int(v))"); (B"int32", B"return newInt(int(v))"); (B"int16", B"return newInt(int(v))"); (B"int8", B"return newInt(int(v))");
+    (B"uint", B"return newInt(int(v))"); (B"uint64", B"return newInt(int(v))"); (B"uint32", B"return newInt(int(v))"); (B"uint16", B"return newInt(int(v))");
+    (B"uint8", B"return newInt(int(v))");
+    (B"float64", B"return newFloat(v)"); (B"float32", B"return newFloat(float64(v))");
+    (B"nil", B"return newNil()");
+    (B"default", B"panic(""incompatible type"")") ].
+(* same set of (type, action) pairs; the order of the cases does not matter (Go type switches on distinct types are order-insensitive) *)
+Definition case_eqb (a b : bytes * bytes) : bool := bytes_eqb (fst a) (fst b) && bytes_eqb (snd a) (snd b).
+Definition tables_equiv (a b : list (bytes * bytes)) : bool :=
+  forallb (fun x => existsb (case_eqb x) b) a && forallb (fun x => existsb (case_eqb x) a) b && Nat.eqb (length a) (length b).
